@@ -342,6 +342,14 @@ func checkPair(c *PairCase) *Outcome {
 			{"len(union([v], [w])) == 1", eq},
 			{"len(intersect([v], [w])) == 1", eq},
 			{"len(diff([v], [w])) == 0", eq},
+			// both values on one side, the other side an empty list of their type (computed: the
+			// empty literal has another type), or the list itself
+			{"len(union(diff([v], [v]), [v, w])) == 1", eq},
+			{"len(union([v, w], diff([v], [v]))) == 1", eq},
+			{"len(diff([v, w], diff([v], [v]))) == 1", eq},
+			{"len(union([v, w], [v, w])) == 1", eq},
+			{"len(intersect([v, w], [w, v])) == 1", eq},
+			{"len(intersect([v, w], diff([v], [v]))) == 0", true},
 			{"string(v) == string(w) || !(" + fmt.Sprint(eq) + ")", true}, // equal values convert to the same text
 		}
 		if c.V.T.IsPrim() {
@@ -468,7 +476,7 @@ func eachNumPair(yield func(*NumPair) bool) {
 }
 
 func TestC18(t *testing.T) {
-	R.Rule = "pairs (v, w) of one type (primitives, nested lists / maps / objects / optionals to depth 4): w is a copy, a field-order and insertion-order permutation, v with one leaf changed to a clearly different value (numbers identical or differing by > 1e-6, across 2^53 and 2^63; strings needing escapes; instants, several zones), unrelated, or two different values whose texts coincide once strings are written without quotes (a string holding the container's separator); built through the value constructors (one case in six with repeated sub-values being one shared value on the v side only) or as Go host data through conv; one case in six assembles w step by step (containers attached empty and filled afterwards through ListVal.Add / MapVal.Put, the value under construction rendered after every step); oracle: agreement of val.Equals, Val.String equality, Val.Key equality, isset([v:1], w), union / intersect / diff cardinalities, == / != and string(v) == string(w) for equal values, labelled by the model's own equality; reflexivity and symmetry, the rendering of one value repeated eight times; plus all pairs of the boundary numeric pool (incl. neighbouring doubles with a fractional part at seven magnitudes) for distinct renderings and keys; non-trivial = a model-equal pair in another representation, or a pair differing in exactly one leaf"
+	R.Rule = "pairs (v, w) of one type (primitives, nested lists / maps / objects / optionals to depth 4): w is a copy, a field-order and insertion-order permutation, v with one leaf changed to a clearly different value (numbers identical or differing by > 1e-6, across 2^53 and 2^63; strings needing escapes; instants, several zones), unrelated, or two different values whose texts coincide once strings are written without quotes (a string holding the container's separator); built through the value constructors (one case in six with repeated sub-values being one shared value on the v side only) or as Go host data through conv; one case in six assembles w step by step (containers attached empty and filled afterwards through ListVal.Add / MapVal.Put, the value under construction rendered after every step); oracle: agreement of val.Equals, Val.String equality, Val.Key equality, isset([v:1], w), union / intersect / diff cardinalities (the two values on opposite sides, on one side against an empty list of their type, against themselves), == / != and string(v) == string(w) for equal values, labelled by the model's own equality; reflexivity and symmetry, the rendering of one value repeated eight times; plus all pairs of the boundary numeric pool (incl. neighbouring doubles with a fractional part at seven magnitudes) for distinct renderings and keys; non-trivial = a model-equal pair in another representation, or a pair differing in exactly one leaf"
 	R.Assume = []string{"model.ValEqual (harness) labels pairs; numbers inside a pair are identical or clearly different (the property's own restriction)"}
 	reportKnown(t, "C18")
 	runRegress(t, "C18")
